@@ -110,6 +110,9 @@ func vfC07Check(c vfC07Case) error {
 			if len(want) == 0 && strings.Contains(err.Error(), "no test cases apply") {
 				return nil
 			}
+			if vfAnyPreset(c.Suites) {
+				return nil // a suite that fills runner-owned request fields may be rejected (proto docs: "must not be present")
+			}
 			return verifkit.Violf("expansion-rejected", "well-formed suites were rejected: %v (model expects %d permutations)", err, len(want))
 		}
 		libs = append(libs, lib)
@@ -305,3 +308,14 @@ func TestVerifC07Expansion(t *testing.T) {
 }
 
 var _ = sort.Strings
+
+func vfAnyPreset(suites []vfSuite) bool {
+	for _, s := range suites {
+		for _, tc := range s.Cases {
+			if tc.Preset != 0 {
+				return true
+			}
+		}
+	}
+	return false
+}
